@@ -34,23 +34,25 @@ import tempfile
 _ev_backup = tempfile.mkdtemp(prefix="evbak_")
 for f in os.listdir("/verif/evidence"):
     shutil.copy(os.path.join("/verif/evidence", f), _ev_backup)
-rc, out = sh(f"git -C /repo apply {patch}")
+# the change is applied in the scratch worktree and the checks are pointed at it (--repo): same generator, same contracts,
+# nothing written to /verif/evidence, and /repo stays untouched so that other runs are not disturbed
+rc, out = sh(f"git apply {patch}", cwd=wt)
 assert rc == 0, out
 try:
     for c in checks:
         t0 = time.time()
-        rcc, outc = sh(f"./check {c} --tier quick", cwd="/verif")
+        rcc, outc = sh(f"./check {c} --tier quick --repo {wt}", cwd="/verif")
         viol = [l for l in outc.splitlines() if l.startswith(("VIOLATION", "UNDECIDED", "CHECKER-ERROR"))]
         res[c] = {"exit": rcc, "lines": [v[:300] for v in viol[:6]], "n_lines": len(viol), "wall_s": round(time.time() - t0)}
 finally:
-    sh("git -C /repo checkout -- .")
+    sh("git checkout -- .", cwd=wt)
     for f in os.listdir(_ev_backup):
         shutil.copy(os.path.join(_ev_backup, f), "/verif/evidence")
     shutil.rmtree(_ev_backup, ignore_errors=True)
 meta["checks"] = res
 meta["detected"] = any(r["exit"] == 1 for r in res.values())
 meta["needs"] = notes[:1500]
-meta["ran"] = f"git apply patch in scratch worktree; demo.py with/without; full pytest with the change; then git -C /repo apply; ./check {' '.join(checks)} --tier quick; git -C /repo checkout -- ."
+meta["ran"] = f"git apply patch in scratch worktree; demo.py with/without; full pytest with the change; then the patch applied in the worktree and ./check {' '.join(checks)} --tier quick --repo <worktree>; git checkout -- ."
 dst = f"/verif/seeded/{prop}-{n}"
 os.makedirs(dst, exist_ok=True)
 shutil.copy(patch, dst + "/patch.diff"); shutil.copy(os.path.join(mdir, "demo.py"), dst + "/demo.py")
